@@ -29,6 +29,22 @@ type Input struct {
 	Rows  []Row      `json:"rows"`
 	Atoms []whr.Atom `json:"atoms"`
 	Chain []whr.Call `json:"chain"`
+	// PK != 0: the chain ends with one more AND unit, `id = PK`, which Find and Count receive as
+	// Where(map) and Update and Delete receive as the primary key of their model value
+	PK int64 `json:"pk,omitempty"`
+}
+
+const pkAtom = 20
+
+// full returns the input as the checker reads it: the primary-key unit as last Where call.
+func (in Input) full() Input {
+	if in.PK == 0 {
+		return in
+	}
+	out := in
+	out.Atoms = append(append([]whr.Atom{}, in.Atoms...), whr.Atom{ID: pkAtom, Col: "id", Op: "eq", I: in.PK})
+	out.Chain = append(append([]whr.Call{}, in.Chain...), whr.Call{Kind: "where", Unit: whr.Unit{Form: "map", Members: []int{pkAtom}}})
+	return out
 }
 
 type Obs struct {
@@ -52,6 +68,9 @@ func genRows(r *lib.Rng) []Row {
 		rows[i] = Row{ID: int64(i + 1), Age: int64(r.Range(0, 5)), Name: lib.Pick(r, names)}
 		if r.Chance(3, 5) {
 			s := lib.Pick(r, nicks)
+			if r.Chance(1, 8) {
+				s = ""
+			}
 			rows[i].Nick = &s
 		}
 	}
@@ -138,7 +157,8 @@ func addText(m map[int][]string, id int, t string) {
 	m[id] = append(m[id], t)
 }
 
-func (e *env) run(in Input) Obs {
+func (e *env) run(orig Input) Obs {
+	in := orig.full()
 	o := Obs{Texts: map[int][]string{}, Truth: map[int][]string{}}
 	fail := func(w string, err error) {
 		if err != nil {
@@ -174,7 +194,7 @@ func (e *env) run(in Input) Obs {
 			fail("mntext", err)
 			addText(o.Texts, a.NegID(), nt)
 		}
-		if a.Op == "eq" && (a.IsStr && a.S != "" || !a.IsStr && a.I != 0) {
+		if a.StructOK() {
 			st := whr.StructOf([]whr.Atom{a})
 			t, err = e.whereText(base().Where(&st))
 			fail("stext", err)
@@ -248,11 +268,14 @@ func (e *env) run(in Input) Obs {
 	}
 	fail("count", tx.Model(&whr.T{}).Count(&o.Count).Error)
 	// Update marks rows; AllowGlobalUpdate so that condition-free chains run too
+	if orig.PK != 0 {
+		in = orig // the primary-key unit now comes from the model value
+	}
 	tx, inline = build()
 	if len(inline) > 0 {
 		tx = tx.Where(inline[0], inline[1:]...)
 	}
-	fail("update", tx.Session(&gorm.Session{AllowGlobalUpdate: true}).Model(&whr.T{}).Update("mark", 1).Error)
+	fail("update", tx.Session(&gorm.Session{AllowGlobalUpdate: true}).Model(&whr.T{ID: orig.PK}).Update("mark", 1).Error)
 	o.Update = []int64{}
 	fail("marked", db.Raw("SELECT id FROM ts WHERE mark = 1 ORDER BY id").Scan(&o.Update).Error)
 	fail("unmark", db.Exec("UPDATE ts SET mark = 0").Error)
@@ -273,7 +296,7 @@ func (e *env) run(in Input) Obs {
 		return tx, inline
 	}
 	dtx, dinline := chainOn(t)
-	fail("delete", dtx.Delete(&whr.T{}, dinline...).Error)
+	fail("delete", dtx.Delete(&whr.T{ID: orig.PK}, dinline...).Error)
 	var remaining []int64
 	fail("remaining", t.Raw("SELECT id FROM ts ORDER BY id").Scan(&remaining).Error)
 	t.Rollback()
@@ -291,7 +314,8 @@ func (e *env) run(in Input) Obs {
 
 func gTV(s string) string { return map[string]string{"T": "TT", "F": "TF", "U": "TU"}[s] }
 
-func term(in Input, o Obs) string {
+func term(orig Input, o Obs) string {
+	in := orig.full()
 	byID := map[int]whr.Atom{}
 	for _, a := range in.Atoms {
 		byID[a.ID] = a
@@ -340,6 +364,7 @@ func main() {
 		out.Add(lib.Case{Term: term(in, o), JSON: map[string]interface{}{"input": in, "observed": o},
 			Sig: sig(in), Kind: kind, Shape: whr.Shape(in.Chain), Nontriv: nontriv})
 		out.Count("chain_len", fmt.Sprint(len(in.Chain)))
+		out.Count("primary_key_unit", fmt.Sprint(in.PK != 0))
 		for _, c := range in.Chain {
 			out.Count("call", c.Kind)
 			out.Count("form", c.Unit.Form)
@@ -375,8 +400,12 @@ func main() {
 	for round := 0; round < rounds; round++ {
 		in0 := Input{Atoms: whr.GenAtoms(r, names, nicks)}
 		g := whr.NewGen(r, in0.Atoms)
-		for _, ch := range g.PatternChains(false) {
+		for i, ch := range g.PatternChains(false) {
 			add("pattern", Input{Rows: genRows(r), Atoms: in0.Atoms, Chain: ch})
+			if i%4 == 0 {
+				rows := genRows(r)
+				add("pattern", Input{Rows: rows, Atoms: in0.Atoms, Chain: ch, PK: rows[r.Intn(len(rows))].ID})
+			}
 		}
 	}
 	for round := 0; round < rounds; round++ {
@@ -431,12 +460,15 @@ func main() {
 		if last.Kind == "where" && last.Unit.Form != "group" && r.Chance(1, 5) {
 			last.Inline = true
 		}
+		if r.Chance(1, 5) {
+			in.PK = in.Rows[r.Intn(len(in.Rows))].ID
+		}
 		kind := "main"
 		if hostile {
 			kind = "edge"
 		}
 		add(kind, in)
 	}
-	out.Extra["rule"] = "chains of 1..4 Where/Not/Or calls (first effective call not Or; last Where optionally as inline finisher condition) over a table of 6..14 rows (int, string, nullable string incl. NULLs); every unit drawn from: raw string (inline literals, ? arguments, @named arguments; half of the runs with random keyword case, whitespace in {space, 2 spaces, tab, newline} and redundant parentheses), map (scalar / nil / slice values), struct, clause expressions (Eq/Neq/Lt/Gt/Like/IN, clause.And/Or/Not nests), grouped db.Where(db...) sub-builders, empty forms; finishers Find/Count/Update/Delete; distinct = distinct chain shapes (forms, connectives, tree shapes); non-trivial = at least 2 calls and a strict non-empty subset of the rows selected"
+	out.Extra["rule"] = "chains of 1..4 Where/Not/Or calls (first effective call not Or; last Where optionally as inline finisher condition) over a table of 6..14 rows (int, string, nullable string incl. NULLs); every unit drawn from: raw string (inline literals, ? arguments, @named arguments; half of the runs with random keyword case, whitespace in {space, 2 spaces, tab, newline} and redundant parentheses), map (scalar / nil / slice values), struct, clause expressions (Eq/Neq/Lt/Gt/Like/IN, clause.And/Or/Not nests), grouped db.Where(db...) sub-builders, empty forms; finishers Find/Count/Update/Delete; in a fifth of the chains one more AND unit `id = k` reaches Update and Delete as the primary key of their model value (and Find/Count as Where(map)); distinct = distinct chain shapes (forms, connectives, tree shapes); non-trivial = at least 2 calls and a strict non-empty subset of the rows selected"
 	lib.Must(out.Flush())
 }
